@@ -12,6 +12,7 @@
              remove   the other entries keep their order
              push / insert / replace / remove on arrays and arrays of tables: the Vec laws
              sort     stable sort by key (dotted sub-tables are part of the syntactic table: sorted too)
+             sort_by  stable sort by the caller's comparator, at the table and inside its dotted sub-tables
              fmt      no change of content
              make_value        a table becomes an inline table, an array of tables an array, all the way down
              into_table        an inline table becomes a table (its children stay what they are)
@@ -39,6 +40,12 @@ Inductive pv : Set :=
 (* an item assigned through `IndexMut` *)
 Inductive ipay : Set := IPValue (v : pv) | IPTable.
 
+(* the comparators handed to sort_values_by (the closures of harness/src/bin/c08.rs):
+     CKeyDesc   |k1, _, k2, _| k2.get().cmp(k1.get())         keys, descending
+     CRank      |_, a, _, b| rank(a).cmp(&rank(b))            placeholders, then everything that is not an
+                                                               integer (all tied), then integers by value *)
+Inductive scmp : Set := CKeyDesc | CRank.
+
 Inductive op : Set :=
 | OInsert (p : path) (k : bytes) (v : pv)       (* Table::insert(k, value(v)) / InlineTable::insert(k, v) *)
 | OInsertTable (p : path) (k : bytes)           (* Table::insert(k, Item::Table(Table::new())) *)
@@ -55,7 +62,8 @@ Inductive op : Set :=
 | OMakeValue (p : path) (k : bytes)             (* Item::make_value on the entry k of the table at p *)
 | OIntoTable (p : path) (k : bytes)             (* Item::into_table, result stored back in the slot *)
 | OIntoAot (p : path) (k : bytes)               (* Item::into_array_of_tables, result stored back *)
-| OISet (ks : list bytes) (x : ipay).           (* doc[k1][k2]...[kn] = x  (IndexMut, auto-vivification) *)
+| OISet (ks : list bytes) (x : ipay)            (* doc[k1][k2]...[kn] = x  (IndexMut, auto-vivification) *)
+| OSortBy (p : path) (c : scmp).                (* Table::sort_values_by / InlineTable::sort_values_by *)
 
 (* ------------------------------------------------------------------------------------ *)
 (** * 2. The plain ordered tree *)
@@ -206,6 +214,49 @@ Fixpoint spec_sort (x : plain) : plain :=
   | _ => x
   end.
 
+(* sort_values_by: the same with the caller's comparator: "sorts the syntactic table (everything under the
+   [header])", stable.  What the comparator is shown:
+     Table::sort_values_by         the key and the item;
+     InlineTable::sort_values_by   the key and the VALUE: entries that are not values (never stored by the parser;
+                                   left by an assignment through IndexMut) are put in front of all values, tied *)
+Definition rank_le (a b : nat * Z) : bool :=
+  Nat.ltb (fst a) (fst b) || (Nat.eqb (fst a) (fst b) && Z.leb (snd a) (snd b)).
+Definition plain_rank (x : plain) : nat * Z :=
+  match x with
+  | PNone => (0, 0%Z)
+  | PScalar (SInt z) => (2, z)
+  | _ => (1, 0%Z)
+  end.
+Definition is_val (x : plain) : bool :=
+  match x with PScalar _ | PArr false _ | PTab true _ _ => true | _ => false end.
+Definition scmp_base (c : scmp) (a b : bytes * plain) : bool :=
+  match c with
+  | CKeyDesc => key_leb (fst b) (fst a)
+  | CRank => rank_le (plain_rank (snd a)) (plain_rank (snd b))
+  end.
+(* "a is not greater than b" for the entries of a table (il = false) / an inline table (il = true) *)
+Definition scmp_le (c : scmp) (il : bool) (a b : bytes * plain) : bool :=
+  if il then
+    match is_val (snd a), is_val (snd b) with
+    | true, true => scmp_base c a b
+    | true, false => false
+    | false, _ => true
+    end
+  else scmp_base c a b.
+Fixpoint spec_sort_by (cm : scmp) (x : plain) : plain :=
+  match x with
+  | PTab il d l =>
+    PTab il d (stable_sort (scmp_le cm il)
+                 (map (fun kv => match kv with
+                                 | (k, c) =>
+                                   (k, match c with
+                                       | PTab il' true _ => if Bool.eqb il il' then spec_sort_by cm c else c
+                                       | _ => c
+                                       end)
+                                 end) l))
+  | _ => x
+  end.
+
 (* doc[k1]...[kn] = x *)
 Fixpoint spec_iset (ks : list bytes) (x : plain) (t : plain) : plain :=
   match ks with
@@ -245,4 +296,5 @@ Definition spec_apply (o : op) (t : plain) : plain :=
   | OIntoTable p k => spec_at p (on_std_tab (e_upd k spec_into_table)) t
   | OIntoAot p k => spec_at p (on_std_tab (e_upd k spec_into_aot)) t
   | OISet ks x => spec_iset ks (ipay_plain x) t
+  | OSortBy p c => spec_at p (spec_sort_by c) t
   end.
